@@ -6,7 +6,7 @@ import vcommon as v
 import crashengine as ce
 
 PROP = "C05"
-INV = ["Partition", "MetaMatches", "NoUnknownRegion", "RealCount", "RealPartition"]
+INV = ["Partition", "MetaMatches", "NoUnknownRegion", "RealCount", "RealPartition", "OutageHeals"]
 
 
 def run(tier, seed):
@@ -26,6 +26,11 @@ def run(tier, seed):
         jobs.append(("v1edge%d" % i, ["--seed", str(rng.randrange(1 << 30)), "--steps", "50", "--fmt", "1", "--blocks", str(rng.choice([26, 30, 34])),
                                       "--cpus", "2", "--keys", "3", "--ttl", "0", "--end", "drop", "--flushpct", "22", "--edges", "85",
                                       "--maximages", "900"]))
+    for i in range(4 if tier == "quick" else 24):   # every record batch fails until the device heals: scrub + release of mixed-size batches
+        jobs.append(("outage%d" % i, ["--seed", str(rng.randrange(1 << 30)), "--steps", str(rng.choice([20, 30])), "--fmt", "3",
+                                      "--blocks", str(rng.choice([36, 40])), "--cpus", "2", "--keys", str(rng.choice([4, 5])), "--ttl", "1",
+                                      "--end", "drop", "--flushpct", "25", "--forcesync", "1", "--faultat", str(rng.choice([0, 0, 40])),
+                                      "--faultmode", "3", "--maximages", "100", "--cc", "0"]))
     jobs += ce.full_device_jobs(rng, 8 if tier == "quick" else 48, maximages="300" if tier == "quick" else "1500")
     # MC: write-behind / journal / retirement protocol, every crash image of every reachable state
     mc_viol = []
